@@ -1,6 +1,6 @@
 package filter
 
 type Filter interface {
-	ApplyFilter(filterStr string, data map[string]any) (map[string]any, error)
+	ApplyFilter(filterStr string, data map[string]any) (any, error)
 	FilterInfo() string
 }
